@@ -102,7 +102,10 @@ O2J_ROLES = {
         ("note_measures", lambda n, v, st: v is not None and (("tail_measure" in _u(v) and isinstance(v, ast.BinOp)) or (isinstance(v, ast.Call) and call_name(v) == "sorted"))),
         ("note_measure_dict", lambda n, v, st, node: isinstance(v, ast.Dict) and not v.keys and any(
             isinstance(x, ast.Subscript) and _u(x.value) == n and isinstance(x.ctx, ast.Store) for x in ast.walk(node))),
-        ("note_measure", lambda n, v, st: _for_target(st, n, lambda it: _u(it) == "note_measures")),
+        ("note_measure", lambda n, v, st: _for_target(st, n, lambda it: _u(it) == "note_measures") or (
+            # merged-timeline form: the position component of `for pos, kind, event in <timeline>`
+            isinstance(st, ast.For) and isinstance(st.target, ast.Tuple) and len(st.target.elts) == 3 and
+            isinstance(st.target.elts[0], ast.Name) and st.target.elts[0].id == n and isinstance(st.target.elts[2], ast.Name))),
         ("bpm_val", lambda n, v, st: isinstance(v, ast.Name) and v.id == "init_bpm"),
         ("bpm_ix", lambda n, v, st: isinstance(st, ast.AugAssign) and isinstance(v, ast.Constant) and v.value == 1 and isinstance(st.op, ast.Add)),
         ("bpm", lambda n, v, st: (isinstance(v, ast.Subscript) and _u(v.value) == "bpms") or (isinstance(v, ast.Call) and call_name(v) == "popleft") or
@@ -801,9 +804,12 @@ def rule_r8(ctx) -> List[R.Inst]:
     # (a) integration steps have shape 4 * d(measure) / bpm minutes
     steps = [n for n in ast.walk(fn.node) if isinstance(n, ast.Call) and call_name(n) == "min_to_msec" and n.args]
 
+    tl0 = _merged_timeline(fn)
+    posvars = {"note_measure"} | ({tl0["loop"].target.elts[0].id} if tl0 is not None and isinstance(tl0["loop"].target.elts[0], ast.Name) else set())
+
     def leaf(n):
         t = unparse(n)
-        if t in ("bpm.measure", "note_measure"):
+        if t == "bpm.measure" or t in posvars:
             return "M1"
         if t == "measure":
             return "M0"
@@ -843,6 +849,18 @@ def rule_r8(ctx) -> List[R.Inst]:
                             construct=unparse(ret[0]) if ret else ""))
     # (a2) the sweep's cursor (offset, measure, bpm) advances as one: every path that consumes a tempo event sets all three
     from .c17 import _branch_paths
+    tl_ = _merged_timeline(fn)
+    if tl_ is not None:
+        bad = []
+        for cond, stmts, ex in _branch_paths(tl_["cons_body"]):
+            assigned = {nm.id for st in stmts for x in ast.walk(st) if isinstance(x, (ast.Assign, ast.AugAssign))
+                        for t in (x.targets if isinstance(x, ast.Assign) else [x.target]) for nm in ast.walk(t) if isinstance(nm, ast.Name)}
+            if not {"offset", "measure", "bpm_val"} <= assigned:
+                bad.append(sorted({"offset", "measure", "bpm_val"} - assigned))
+        insts.append(R.viol(rid, "sweep-cursor", file, tl_["loop"].lineno,
+                            f"the tempo-event branch consumes an event but {bad[0]} stay(s) behind: the next segment is integrated from the "
+                            f"wrong position/tempo", construct=f"timeline branch: {bad[0]} not updated") if bad else
+                     R.ok(rid, "sweep-cursor", file, tl_["loop"].lineno, idiom="offset, measure and bpm are updated together in the tempo-event branch"))
     allwh = [n for n in ast.walk(fn.node) if isinstance(n, ast.While)]
     # the sweep loop: the while nested in the loop over the note positions (a second, top-level `while <queue>:` drains the rest)
     whiles = [w for w in allwh if any(isinstance(f, ast.For) and any(x is w for x in ast.walk(f)) for f in fn.node.body)] or allwh
@@ -874,7 +892,7 @@ def rule_r8(ctx) -> List[R.Inst]:
                                 f"segment is integrated from the wrong position/tempo", construct=f"sweep path {ctxt}: {miss} not updated"))
         else:
             insts.append(R.ok(rid, "sweep-cursor", file, whiles[0].lineno, idiom="offset, measure and bpm are updated together on every consuming path"))
-    else:
+    elif tl_ is None:
         insts.append(R.undec(rid, "sweep-cursor", file, fn.node.lineno, f"{len(whiles)} sweep loops found"))
     # (b) notes take offset = table[measure], length = table[tail_measure] - offset
     asg = {}
@@ -991,6 +1009,78 @@ def rule_r9(ctx) -> List[R.Inst]:
                    construct=f"no sort of {sorted(derived)} by .measure" + (f"; sorts {other[0][0]}" if other else ""))]
 
 
+def _merged_timeline(fn):
+    """the sweep written as ONE loop over heapq.merge of the tempo events and the note positions:
+        timeline = merge(((e.measure, T0, e) for e in EVENTS), ((m, T1, None) for m in POSITIONS), key=<first two components>)
+        for pos, _, e in timeline:  if e is None: <a note position>  else: <consume the tempo event>
+    -> dict(loop, events, positions, t_event, t_pos, event_var, key_ok, cons_body, note_body) or None"""
+    def res(e):
+        if isinstance(e, ast.Name):
+            ds = [x.value for x in walk_no_nested(fn.node) if isinstance(x, ast.Assign) and len(x.targets) == 1 and
+                  isinstance(x.targets[0], ast.Name) and x.targets[0].id == e.id]
+            if len(ds) == 1:
+                return ds[0]
+        return e
+    for lp in (n for n in fn.node.body if isinstance(n, ast.For)):
+        it = res(lp.iter)
+        if not (isinstance(it, ast.Call) and call_name(it) == "merge" and len(it.args) == 2):
+            continue
+        gens = [res(a) for a in it.args]
+        if not all(isinstance(g, (ast.GeneratorExp, ast.ListComp)) and len(g.generators) == 1 and not g.generators[0].ifs and
+                   isinstance(g.elt, ast.Tuple) and len(g.elt.elts) == 3 and isinstance(g.elt.elts[1], ast.Constant) for g in gens):
+            continue
+        ev = [g for g in gens if isinstance(g.elt.elts[2], ast.Name) and isinstance(g.generators[0].target, ast.Name) and
+              g.elt.elts[2].id == g.generators[0].target.id]
+        ps = [g for g in gens if isinstance(g.elt.elts[2], ast.Constant) and g.elt.elts[2].value is None]
+        if len(ev) != 1 or len(ps) != 1 or not (isinstance(lp.target, ast.Tuple) and len(lp.target.elts) == 3 and isinstance(lp.target.elts[2], ast.Name)):
+            continue
+        evar = lp.target.elts[2].id
+        key = next((k.value for k in it.keywords if k.arg == "key"), None)
+        kt = unparse(key).replace(" ", "") if key is not None else ""
+        key_ok = kt in ("itemgetter(0,1)", "operator.itemgetter(0,1)") or (
+            isinstance(key, ast.Lambda) and unparse(key.body).replace(" ", "") in (f"({key.args.args[0].arg}[0],{key.args.args[0].arg}[1])",
+                                                                                   f"{key.args.args[0].arg}[:2]"))
+        branch = next((s_ for s_ in lp.body if isinstance(s_, ast.If) and isinstance(s_.test, ast.Compare) and unparse(s_.test.left) == evar and
+                       isinstance(s_.test.ops[0], (ast.Is, ast.IsNot)) and isinstance(s_.test.comparators[0], ast.Constant) and
+                       s_.test.comparators[0].value is None), None)
+        if branch is None or len(lp.body) != 1:
+            continue
+        note_body, cons_body = (branch.body, branch.orelse) if isinstance(branch.test.ops[0], ast.Is) else (branch.orelse, branch.body)
+        return dict(loop=lp, events=unparse(ev[0].generators[0].iter), positions=unparse(ps[0].generators[0].iter),
+                    ev_attr=unparse(ev[0].elt.elts[0]).split(".")[-1] if isinstance(ev[0].elt.elts[0], ast.Attribute) else None,
+                    t_event=ev[0].elt.elts[1].value, t_pos=ps[0].elt.elts[1].value, event_var=evar, key_ok=key_ok,
+                    cons_body=cons_body, note_body=note_body, merge=it)
+    return None
+
+
+def _timeline_insts(fn, rid, file) -> Optional[List[R.Inst]]:
+    tl = _merged_timeline(fn)
+    if tl is None:
+        return None
+    lp = tl["loop"]
+    insts = []
+    probs = []
+    if not tl["key_ok"]:
+        probs.append("the merge key is not the (position, kind) pair of the entries")
+    if not (isinstance(tl["t_event"], int) and isinstance(tl["t_pos"], int) and tl["t_event"] < tl["t_pos"]):
+        probs.append(f"on equal positions the note position (tag {tl['t_pos']}) is ordered before the tempo event (tag {tl['t_event']}): an event "
+                     f"exactly at a note's position must be applied before the note is timed")
+    if tl["ev_attr"] != "measure":
+        probs.append(f"tempo events are ordered by '.{tl['ev_attr']}', they are sorted by '.measure'")
+    insts.append(R.viol(rid, "sweep:look-ahead", file, tl["merge"].lineno, "; ".join(probs), construct=unparse(tl["merge"])[:160]) if probs else
+                 R.ok(rid, "sweep:look-ahead", file, tl["merge"].lineno,
+                      idiom="one timeline merged by (position, kind): a tempo event at or before a note position comes first"))
+    insts.append(R.ok(rid, "sweep:bounds", file, lp.lineno, idiom="merge yields each entry once: no look-ahead index to guard"))
+    insts.append(R.ok(rid, "sweep:first", file, lp.lineno, idiom=f"merge starts with the first entry of '{tl['events']}' / '{tl['positions']}'"))
+    timed = any(isinstance(x, ast.Assign) and isinstance(x.targets[0], ast.Attribute) and x.targets[0].attr == "offset" and
+                unparse(x.targets[0].value) == tl["event_var"] for s_ in tl["cons_body"] for x in ast.walk(s_))
+    insts.append(R.ok(rid, "sweep:trailing", file, lp.lineno, idiom="every tempo event is an entry of the timeline and is timed in its branch") if timed else
+                 R.viol(rid, "sweep:trailing", file, lp.lineno, "the tempo-event branch of the timeline does not time the event",
+                        construct="; ".join(unparse(s_)[:60] for s_ in tl["cons_body"])))
+    return insts
+
+
+
 def _queue_sweep(fn, sweep, wh, q, rid, file) -> Optional[List[R.Inst]]:
     """the sweep written over a queue of pending events: `while Q and Q[0].measure <= q: e = Q.popleft(); ...`, then
     `while Q: e = Q.popleft(); ...` — the same four obligations as for the index cursor"""
@@ -1065,6 +1155,9 @@ def rule_r10(ctx) -> List[R.Inst]:
     fors = [n for n in fn.node.body if isinstance(n, ast.For)]
     sweep = next((f for f in fors if any(isinstance(x, ast.While) for x in ast.walk(f))), None)
     if sweep is None or not isinstance(sweep.target, ast.Name):
+        tl = _timeline_insts(fn, rid, file)
+        if tl is not None:
+            return tl
         return [R.undec(rid, "sweep", file, fn.node.lineno, "sweep loop (for <position> ...: while ...) not found")]
     q = sweep.target.id
     wh = next(x for x in ast.walk(sweep) if isinstance(x, ast.While))
